@@ -246,7 +246,16 @@ func runC16(seed int64, n int, out string) *RunReport {
 		fld := h.critField()
 		v := h.operand()
 		cmp := func(op string) *Crit { return &Crit{Kind: "cmp", Op: op, Field: fld, Val: v} }
-		same("neq=not-eq", not(cmp("OEq")), &Crit{Kind: "not", A: cmp("OEq")})
+		same("neq=not-eq", &Crit{Kind: "neq", Field: fld, Val: v}, not(cmp("OEq")))
+		same("notexists=not-exists", &Crit{Kind: "notexists", Field: fld}, not(&Crit{Kind: "exists", Field: fld}))
+		for _, nilish := range []Operand{{Lit: nil}, {IsRef: true, Ref: "zz"}, {Lit: "$zz"}} {
+			same("neq-nil=not-eq-nil", &Crit{Kind: "neq", Field: fld, Val: nilish}, not(&Crit{Kind: "cmp", Op: "OEq", Field: fld, Val: nilish}))
+		}
+		// Contains with a repeated operand means the same as without the repetition
+		if arr, isArr := doc.Get("arr").([]interface{}); isArr && len(arr) > 0 {
+			e := arr[g.Intn(len(arr))]
+			same("contains-repeated", &Crit{Kind: "contains", Field: "arr", Vals: []Operand{{Lit: e}, {Lit: e}, {Lit: e}, {Lit: e}, {Lit: e}}}, &Crit{Kind: "contains", Field: "arr", Vals: []Operand{{Lit: e}}})
+		}
 		same("lt=not-ge", cmp("OLt"), not(cmp("OGtEq")))
 		same("gt=not-le", cmp("OGt"), not(cmp("OLtEq")))
 		vs := []Operand{h.operand(), h.operand()}
@@ -375,7 +384,20 @@ func goValues(g *Gen) []interface{} {
 		p.Skipped = true
 	}
 	pp := &p
+	tp := &t0
+	tpp := &tp
+	zero, empty, no := 0, "", false
+	type Opt struct {
+		PI  *int        `clover:"pi,omitempty"`
+		PS  *string     `clover:"ps,omitempty"`
+		PB  *bool       `clover:"pb,omitempty"`
+		I   interface{} `clover:"i,omitempty"`
+		J   interface{} `clover:"j,omitempty"`
+		TPP **time.Time `clover:"tpp,omitempty"`
+	}
 	return []interface{}{
+		tpp, &tpp, map[string]interface{}{"when": tpp}, []interface{}{tpp}, struct{ T **time.Time }{tpp},
+		Opt{PI: &zero, PS: &empty, PB: &no, I: 0, J: "", TPP: tpp}, Opt{}, &Opt{PI: &z},
 		nil, int(z), int8(z), int16(z), int32(-z), int64(z), uint(z), uint8(z), uint16(z), uint32(z), uint64(z), float32(z) / 4, float64(z) / 8,
 		"s", true, t0, &t0, nilt, nilp, &z, &pp, p, pp,
 		[]int{1, z}, [3]int8{1, 2, 3}, []interface{}{z, "a", nil, &z, []uint16{1}}, []string{}, []*int{&z, nil},
